@@ -118,6 +118,7 @@ where
                     }
                     let fresh = FRESH_WORKER_PER_CASE.load(std::sync::atomic::Ordering::SeqCst);
                     let mut used = false;
+                    let mut first_failure_history: Option<(Vec<String>, String)> = None;
                     let out = run_prop(base_stream * 64 + sh as u64, per, mk_strategy(), |c: &C| {
                         if fresh && used {
                             w.retire();
@@ -125,15 +126,32 @@ where
                         used = true;
                         let ex = w.exec(&json!({"op": op, "case": c, "opts": opts}), timeout);
                         let r = judge(&mut sub, c, ex, &hello);
-                        if r.is_err() {
+                        if let Err(m) = &r {
+                            if first_failure_history.is_none() {
+                                first_failure_history = Some((w.history.clone(), m.clone()));
+                            }
                             sub.freeze();
                         }
                         r
                     });
                     if let Some((case, msg)) = out.failure {
                         let sig = msg.split(']').next().unwrap_or("").trim_start_matches('[').to_string();
+                        // is the shrunk case self-contained?  run it once more in a fresh process
+                        w.retire();
+                        let mut scratch = Recorder::new(&prop, &engine, &rule);
+                        let again = w.exec(&json!({"op": op, "case": &case, "opts": opts}), timeout);
+                        let reproduces = judge(&mut scratch, &case, again, &hello).is_err();
                         sub.unfreeze();
-                        sub.violation(&sig, &msg, wrap(&case));
+                        match (reproduces, first_failure_history) {
+                            (false, Some((hist, first_msg))) => {
+                                // it needs what earlier cases left behind in the worker process:
+                                // the replay file carries that process history (unshrunk, reproducible)
+                                let seq: Vec<Value> = hist.iter().filter_map(|l| serde_json::from_str::<Value>(l).ok()).collect();
+                                let fsig = first_msg.split(']').next().unwrap_or("").trim_start_matches('[').to_string();
+                                sub.violation(&fsig, &format!("{first_msg} -- NOTE: depends on the history of the worker process (the shrunk case {case:?} passes in a fresh process); the replay file holds the {} requests that process had executed", seq.len()), json!({"Sequence": seq}));
+                            }
+                            _ => sub.violation(&sig, &msg, wrap(&case)),
+                        }
                     }
                     sub.count("worker_processes", w.spawned);
                     sub
@@ -375,7 +393,7 @@ fn cmd_hist(prop: &str) -> i32 {
         }
         _ => {
             let n = cases(2400, 120_000);
-            run_sharded(&mut rec, 2, n, shards(), "hist", optv, Duration::from_secs(60), || hist::strategy(4, 8, false), hist_judge::judge_c02, |c| json!({"HistCase": c, "opts": "C02"}));
+            run_sharded(&mut rec, 2, n, shards(), "hist", optv, Duration::from_secs(60), || hist::strategy_rw(4, 8, false, true), hist_judge::judge_c02, |c| json!({"HistCase": c, "opts": "C02"}));
         }
     }
     rec.finish(&out_path())
@@ -389,7 +407,43 @@ fn cmd_replay(path: &str) -> i32 {
     let mut rec = Recorder::new(&prop, "n-replay", "replay of one saved case (50 repetitions for scheduled cases)");
     let mut w = Worker::spawn("replay");
     let hello = w.hello.clone();
-    let r = if let Some(c) = case.get("PlaceCase") {
+    let r = if let Some(seq) = case.get("Sequence").and_then(|s| s.as_array()) {
+        // replay a whole worker-process history; the verdict is that of the last request
+        let mut last: Result<(), String> = Ok(());
+        for (k, req) in seq.iter().enumerate() {
+            let ex = w.exec(req, Duration::from_secs(120));
+            if k + 1 == seq.len() {
+                let c = &req["case"];
+                last = match req["op"].as_str().unwrap_or("") {
+                    "hist" => {
+                        let hc: hist::HistCase = serde_json::from_value(c.clone()).expect("HistCase");
+                        match prop.as_str() {
+                            "C03" => hist_judge::judge_c03(&mut rec, &hc, ex, &hello),
+                            "C12" => hist_judge::judge_c12(&mut rec, &hc, ex, &hello),
+                            "C17" => hist_judge::judge_c17(&mut rec, &hc, ex, &hello),
+                            _ => hist_judge::judge_c02(&mut rec, &hc, ex, &hello),
+                        }
+                    }
+                    "place" => judge_place(&mut rec, &serde_json::from_value(c.clone()).expect("PlaceCase"), ex, &hello),
+                    "layout" => layout::judge(&mut rec, &serde_json::from_value(c.clone()).expect("LayoutCase"), ex, &hello),
+                    "probe" => probe_case::judge(&mut rec, &serde_json::from_value(c.clone()).expect("ProbeCase"), ex, &hello),
+                    "shape" => shapes::judge(&mut rec, &serde_json::from_value(c.clone()).expect("ShapeCase"), ex, &hello),
+                    "sig" => sigs::judge_sig(&mut rec, &serde_json::from_value(c.clone()).expect("SigCase"), ex, &hello),
+                    "boolsig" => sigs::judge_bool(&mut rec, &serde_json::from_value(c.clone()).expect("BoolCase"), ex, &hello),
+                    "times" => times::judge(&mut rec, &serde_json::from_value(c.clone()).expect("TimesCase"), ex, &hello),
+                    "panic" => panics::judge(&mut rec, &serde_json::from_value(c.clone()).expect("PanicCase"), ex, &hello),
+                    "threads" => threads::judge(&mut rec, &serde_json::from_value(c.clone()).expect("ThreadCase"), ex, &hello),
+                    "async" => asyncs::judge(&mut rec, &serde_json::from_value(c.clone()).expect("AsyncCase"), ex, &hello),
+                    other => Err(format!("unknown op {other} in sequence")),
+                };
+            } else if let Exec::Died { .. } = ex {
+                // an earlier request of the history killed the worker: that is the finding
+                last = Err(format!("[{prop}/native/died-during-history] request {k} of the recorded history kills the worker"));
+                break;
+            }
+        }
+        last
+    } else if let Some(c) = case.get("PlaceCase") {
         let c: place::PlaceCase = serde_json::from_value(c.clone()).expect("PlaceCase");
         let ex = w.exec(&json!({"op": "place", "case": c}), Duration::from_secs(30));
         judge_place(&mut rec, &c, ex, &hello)
